@@ -71,6 +71,12 @@ CLAIMED = {
         text="C06_bytes: for every original written by a writer session (any chunking, any EVLRs in normal form, every legal header) and every sequence of appended chunks (empty ones included), appendSession leaves exactly the bytes of the one-shot session over original ++ appended points: same point sequence, exact count / histogram / extrema, VLRs untouched, EVLRs re-emitted right after the new points with the pointer updated; C06_sessions lifts this to any number of successive sessions; C06_format: another point format or record length is refused without a new state. The model's appendSession is compared byte for byte with real LasAppender sessions (1-3 sessions, every version/format pair, empty originals) and the result with the one-shot file laspy writes; rescaling of scale-aware records with a different scaling is checked by the direct oracle (coordinates within half a step, caller's records unchanged) and proved in exact arithmetic under C11.",
         note="Trusted: FloatLaws + BitsRoundTrip (struct.pack/unpack inverse on the doubles that occur) as explicit hypotheses; BytesIO write-at-position semantics (writeAt); originals not written by laspy (gaps before EVLRs, non-canonical padding) are outside C06_bytes and only get the oracle's point-sequence / EVLR checks.",
         design="6 (C06)"),
+    "C19": dict(
+        engine="fileio",
+        technique="Lean 4 proof of the two key lemmas (torn / truncated little-endian counter <= new value; records returned depend only on count, offset, record length and the bytes present, hence are a prefix of what was being stored) + exhaustive crash-image correspondence with laspy.read under a watchdog",
+        text="Theorems: for every width and values old <= new < 256^w and every cut k, the counter decoded from a rewrite torn after k bytes is <= new, and a truncated counter is <= the full one; for ANY decoded header that carries the intended record length, with the record area of the image a prefix of the intended records followed by anything and count <= number of intended records, the reader either fails or returns a prefix of the intended records (C19_records_prefix); readFile is a total function (termination by construction). Partial: that a torn header rewrite / truncated header decodes to a header with the same offset, format and record length and with the torn count (key lemma (i) of DESIGN.md) is not yet a theorem; it is validated by running every crash image (every write-call boundary, every byte inside header rewrites, thorough: every byte of the stream) and every truncation of real LasData.write / LasWriter / LasAppender sessions through both laspy.read and the model's readFile and comparing verdicts and returned bytes.",
+        note="Trusted: BytesIO/file write-at-position semantics; the recording stream sees every low-level write laspy issues (pure-Python writes through the stream object); EVLRs parsed through a stale pointer may be garbage or raise, only the points are constrained; OS-level torn sector writes below write() granularity are represented by byte-granular cuts.",
+        design="6 (C19)"),
 }
 NOT_YET = "check not built yet in this round (planned per DESIGN.md section 10); not claimed until its theorems build and its check is quiet"
 
